@@ -11,7 +11,7 @@ import z3
 from .vals import (Val, NONE, I, B, R, Z, Func, Closure, Bound, Cls, Builtin, TupleV, Partial, ModuleV,
                    SuperV, ArgPack, Unsupported, fresh, ref, strv, STRINGS, cls_of, user_truthy,
                    str_truthy, has_attr, attr_of, is_callable, subclass_of, str_contains, str_of,
-                   py_pow, tb_of, PENDING, RUNNING, CANCELLED, CANCELLED_AND_NOTIFIED, FINISHED)
+                   py_pow, tb_of, list_owner, PENDING, RUNNING, CANCELLED, CANCELLED_AND_NOTIFIED, FINISHED)
 from .state import State, Frame, Event, FRESH_BASE, INPUT_LO, FUT_ARRAYS, SPECIAL, monotone, future_type_inv
 
 CONTAINER_CLASSES = ("list", "deque", "tuple", "dict", "set")
@@ -154,11 +154,14 @@ class Engine(object):
             f = [Val.is_ref(t), cls_of(oid) == self.tag(ty[0]), st.get("$len", oid) >= 0]
             if ty[0] == "tuple":
                 f.append(st.get("$len", oid) == len(ty) - 1)
+            elif ty[-1] == "owned":
+                f.append(list_owner(oid) == 1)
             return z3.And(f)
         if ty == "future":
             return z3.And(Val.is_ref(t), cls_of(Val.id(t)) == self.tag("ForeignFuture"))
         if ty == "anyfuture":
-            return z3.And(Val.is_ref(t), z3.Or(cls_of(Val.id(t)) == self.tag("ForeignFuture"), cls_of(Val.id(t)) == self.tag("Future")))
+            own = [c for c in ("Future", "OutputFuture") if c in self.repo.classes]
+            return z3.And(Val.is_ref(t), z3.Or([cls_of(Val.id(t)) == self.tag(c) for c in ["ForeignFuture"] + own]))
         if ty == "executor":
             return z3.And(Val.is_ref(t), cls_of(Val.id(t)) == self.tag("ForeignExecutor"))
         if ty == "callable":
@@ -1146,6 +1149,8 @@ class Engine(object):
         oid = st.alloc(ci.name)
         st.assume(cls_of(z3.IntVal(oid)) == ci.tag)
         obj = Z(ref(oid), ("inst", ci.name))
+        if self.repo.lookup_method(ci.name, "__call__")[1] is not None:
+            st.assume(is_callable(ref(oid)))
         c, init = self.repo.lookup_method(ci.name, "__init__")
         if isinstance(init, Func):
             for st1, r in self.call_func(st, fr, init, [obj] + list(args), kwargs, star, starkw, node, self_cls=c.name):
